@@ -263,6 +263,8 @@ func Run(c *core.Ctx) int {
 	schemaSweep(c, accepted, mut.pool, seen, addAccepted)
 	// (3e) signed envelopes, the signatures in every encoding the reader takes (signed.go)
 	signedEnvelopes(c, accepted, addAccepted)
+	// (3f) one object kept alive: what the serialisation entry points handed out stays what it was (kept.go)
+	keptSerialisations(c, accepted, addAccepted)
 
 	// (4) model correspondence on the rejecting side: broken copies of valid outputs,
 	// judged by the Lean model and jsonschema only (GOBL has no say here)
@@ -678,6 +680,23 @@ func perturb(r *rand.Rand, s string, alpha []rune) string {
 
 func replay(c *core.Ctx, py *pyPool, rc Case) int {
 	switch rc.Kind {
+	case "kept":
+		var cases []Case
+		var checks []*check
+		ch, done, stage, err := keptRun(rc.Input, rc.IsEnvelope, rc.Steps)
+		c.Note("replay: kept serialisations: %d steps done (%s %v)", done, stage, err)
+		c.Eval("kept "+rc.Source, done > 0)
+		judgeKept(c, rc, ch, func(cs Case, envJSON []byte) {
+			cs.Kind = "doc"
+			cs.Envelope = envJSON
+			if cks, err := checksOf(len(cases), envJSON, true); err == nil {
+				cases = append(cases, cs)
+				checks = append(checks, cks...)
+			}
+		})
+		if len(checks) > 0 {
+			judge(c, py, cases, checks)
+		}
 	case "schema-file":
 		staticPart(c, py, rc.SchemaFile)
 	case "leaf":
